@@ -168,8 +168,11 @@ Definition st_insert (linked : bool) (x : N) (a : anchor) (s : st) : res st :=
       | Some v =>
           if negb (mem v l) then Err 1              (* LY_ENOTFOUND: instance to insert next to not found *)
           else if linked && (v =? x) then Err 1     (* lyd_insert_after(): sibling == node *)
-          else Ok (insert_after v x (if linked then remove1 x l else l),
-                   if linked && (fv =? x) then Some v else Some fv)
+          else let l' := insert_after v x (if linked then remove1 x l else l) in
+               Ok (l', if linked && (fv =? x) then hd_error l' else Some fv)
+                                                    (* the first sibling was moved: *first_node =
+                                                       lyd_first_sibling(anchor) (/repo commit a54f28a; was
+                                                       *first_node = anchor, right only if the anchor followed) *)
       | None =>
           match l with
           | [] => Ok ([x], Some x)                  (* not reachable with f = Some _ *)
